@@ -132,6 +132,23 @@ func Load(dir string) (*Engine, error) {
 	} else {
 		sigNotes = nts
 	}
+	if ov, nts := synthFlagSplit(e.Pkgs, readSource(overlay)); len(ov) > 0 {
+		merged := map[string][]byte{}
+		for k, v := range overlay {
+			merged[k] = v
+		}
+		for k, v := range ov {
+			merged[k] = v
+		}
+		if e2, err2 := loadOverlay(dir, merged); err2 == nil {
+			e, overlay = e2, merged
+			sigNotes = append(sigNotes, nts...)
+		} else {
+			sigNotes = append(sigNotes, "flag-split reconstruction abandoned: "+strings.SplitN(err2.Error(), "\n", 3)[0])
+		}
+	} else {
+		sigNotes = append(sigNotes, nts...)
+	}
 	funcRenames = detectRenames(e.Pkgs)
 	if len(funcRenames) > 0 {
 		// keys are computed while loading: load again with the rename table in place
@@ -141,6 +158,21 @@ func Load(dir string) (*Engine, error) {
 	}
 	var inlined, notes []string
 	notes = append(notes, sigNotes...)
+	if ov, nts := etaExpandMethodValues(e.Pkgs, readSource(overlay)); len(ov) > 0 {
+		merged := map[string][]byte{}
+		for k, v := range overlay {
+			merged[k] = v
+		}
+		for k, v := range ov {
+			merged[k] = v
+		}
+		if e2, err2 := loadOverlay(dir, merged); err2 == nil {
+			e, overlay = e2, merged
+			notes = append(notes, nts...)
+		} else {
+			notes = append(notes, "method-value expansion abandoned: "+strings.SplitN(err2.Error(), "\n", 3)[0])
+		}
+	}
 	cur := e
 	for round := 0; round < 3; round++ {
 		ov, done, nts := inlineNewHelpers(cur.Pkgs, readSource(overlay))
